@@ -3,10 +3,11 @@ import sys, irbuild, explore, time, shutil, json
 sys.path.insert(0,'/verif/engine')
 import check
 harness, units, defs, tl = sys.argv[1], sys.argv[2].split(','), sys.argv[3].split(',') if sys.argv[3] else [], float(sys.argv[4])
-b=irbuild.Builder('/tmp/vexp'); 
+import os; scr='/tmp/vexp%d'%os.getpid(); b=irbuild.Builder(scr); 
 ll=b.link('exp', harness, units, defs, stubs=('nostubs' not in sys.argv))
 known=[k for k in check.load_known(sys.argv[5])] if len(sys.argv)>5 and sys.argv[5].startswith('C') else []
-r=explore.explore(ll, time_limit=tl, engine_opts=dict(known=known))
+hooks=tuple(a[6:] for a in sys.argv if a.startswith('hooks='))
+r=explore.explore(ll, time_limit=tl, engine_opts=dict(known=known, hooks=hooks))
 vs=r.pop('violations'); r.pop('vectors'); sm=r.pop('samples')
 print(r)
 seen=set()
@@ -14,4 +15,4 @@ for v in vs:
     k=(v['msg'],v['known'])
     if k in seen: continue
     seen.add(k); print('VIOL',v['known'],v['msg'],v['vector'])
-shutil.rmtree('/tmp/vexp')
+shutil.rmtree(scr)
